@@ -410,12 +410,27 @@ def run_task(args):
         import sys as _sys
         import threading as _th
 
+        code2fun = _code_to_function()
+        optused = set()
+
         def _prof(frame, event, arg):
             if event == "call":
                 co_ = frame.f_code
                 fn_ = co_.co_filename
                 if "/felupe/" in fn_ and "/site-packages/" not in fn_:
                     executed.add((fn_, co_.co_firstlineno, co_.co_name))
+                    f_ = code2fun.get(co_)
+                    if f_ is not None:
+                        # which optional parameters carry a non-default value in this call (option coverage)
+                        try:
+                            loc = frame.f_locals
+                            for nm_, dv_ in f_[1]:
+                                if nm_ in loc:
+                                    v_ = loc[nm_]
+                                    if v_ is not dv_ and not (type(v_) in (int, float, bool, str, tuple, type(None)) and type(dv_) is type(v_) and v_ == dv_):
+                                        optused.add((fn_, co_.co_firstlineno, f_[0], nm_))
+                        except Exception:
+                            pass
 
         _sys.setprofile(_prof)
         _th.setprofile(_prof)
@@ -442,6 +457,7 @@ def run_task(args):
         _sys.setprofile(None)
         _th.setprofile(None)
         out["executed"] = sorted(executed)
+        out["options_used"] = sorted(optused)
     out["sym_seconds"] = round(time.time() - t0, 3)
     # vacuity: cover check of requires
     try:
@@ -529,6 +545,44 @@ def _native_exception(c, cfg, vk, rng, tier):
         last = [f for f in where if "/felupe/" in f.filename and "/site-packages/" not in f.filename][-1]
         return {"obligation": vk.prefix + "/run", "contract": c.name, "cfg": cfg, "property": c.prop, "kind": "exception", "confirmed": True, "point": pt, "expected": "the call returns (admissible input)", "actual": f"{type(e2).__name__}: {str(e2)[:300]} (raised at {os.path.relpath(last.filename, '/repo') if last.filename.startswith('/repo') else last.filename}:{last.lineno} in {last.name})"}
     return None
+
+
+_C2F = None
+
+
+def _code_to_function():
+    """code object -> (qualified name, [(optional parameter, default)]) for every function of the felupe package"""
+    global _C2F
+    if _C2F is not None:
+        return _C2F
+    import sys as _sys
+
+    out = {}
+
+    def add(f_):
+        try:
+            f_ = inspect.unwrap(f_)
+            sig = inspect.signature(f_)
+        except Exception:
+            return
+        opts = [(n, p.default) for n, p in sig.parameters.items() if p.default is not inspect.Parameter.empty]
+        if hasattr(f_, "__code__"):
+            out[f_.__code__] = (getattr(f_, "__qualname__", f_.__name__), opts)
+
+    for mname, mod in list(_sys.modules.items()):
+        if not mname.startswith("felupe") or mod is None:
+            continue
+        for obj in list(vars(mod).values()):
+            if inspect.isfunction(obj) and (obj.__module__ or "").startswith("felupe"):
+                add(obj)
+            elif inspect.isclass(obj) and (obj.__module__ or "").startswith("felupe"):
+                for sub in list(vars(obj).values()):
+                    if isinstance(sub, (staticmethod, classmethod)):
+                        sub = sub.__func__
+                    if inspect.isfunction(sub):
+                        add(sub)
+    _C2F = out
+    return out
 
 
 def _samples(vk, k=2):
